@@ -213,6 +213,17 @@ func specialFamilies() []*scaleFam {
 			{Prog: "BEGIN { print \"begin\" }\n", Sels: []string{"[printf(\"header\\n\"), printf(\"%70000s\", \"x\")]"}, Files: []inFile{{Name: "in.json", Text: `{"rows": [1, 2]}`}}, Want: "begin\nheader\n", Kind: drive.KRuntime, CLI: true},
 			{Prog: "BEGIN { print \"begin\" }\n", Sels: []string{"[printf(\"header\\n\"), $.rows[2000000] = 1]"}, Files: []inFile{{Name: "in.json", Text: `{"rows": [1, 2]}`}}, Want: "begin\nheader\n", Kind: drive.KRuntime, CLI: true},
 		}),
+		fixedFam("C06", "a sign in front of an index expression, a prefix operator in front of an assignment", []scaleCase{
+			{Prog: "BEGIN { n = 1; a = [10, 20, 30, 40]; print a[-n + 1], a[-n * 2 + 4], a[- n - - 2], a[-1 + n], a[-n], a[-(n + 1)] }\n{ print $[-n + 1], $[- n + n], $[-1] }\n", Files: []inFile{{Name: "in.json", Text: "[[10, 20, 30, 40]]"}}, Want: "10 30 20 10 40 30\n10 10 40\n"},
+			// (what a store into `-x` yields is not fixed - 7.1 - and is not printed; that `x` is not the target is)
+			{Prog: "BEGIN { x = 2; y = -x = 5; print x; f = 0; z = !f = 7; print f; o = {n: 1}; w = -o.n = 3; print o.n; x = 2; -x += 5; print x; +x *= 3; print x }\n", Want: "2\n0\n1\n2\n2\n"},
+		}),
+		textFam("C15", "arrays of the document changed by methods only, then written", []textProg{
+			{Prog: "BEGINFILE { $.push(4) }\n", Input: `[1, 2, 3]`, Root: true},
+			{Prog: "{ $.items.pop(); $.items.push(\"x\"); t = $.items.popfirst() }\nEND { print t }\n", Input: `{"items": [1, 2, 3], "n": 1}`, Root: true},
+			{Prog: "BEGINFILE { $.push(4) }\n{ n = 0 }\n", Input: `[1] [2, 3]`, Root: true},
+			{Prog: "function grow(a) { a.push(a.length()) }\n{ grow($); grow($) }\n", Input: `[[1], []]`, Root: true},
+		}),
 		textFam("C20", "names and index values met far from the start", []textProg{
 			{Prog: "function bump(num) { return num + 1 }\nfunction walk(n) { if (n == 0) { return bump(num(\"41\")) } return walk(n - 1) }\nBEGIN { print walk(0), walk(60), walk(100), walk(1000) }\n"},
 			{Prog: "function count(total) { down(40); return total }\nfunction down(n) { if (n == 0) { leaf(); return 0 } return down(n - 1) }\nfunction leaf() { total = total + 1 }\nBEGIN { total = 100; print count(0), total }\n"},
